@@ -40,6 +40,7 @@ import (
 func init() {
 	ops["conn"] = opConn
 	ops["connburst"] = opConnBurst
+	ops["connka"] = opConnKA
 }
 
 // ---------------------------------------------------------------- scripted transport
@@ -1147,6 +1148,9 @@ func init() {
 		}
 	}
 	gens["C15"] = func(r *gen.Rng, tier string, emit func(string)) {
+		for _, v := range []string{"answered-cancel", "answered-eof", "unanswered", "unanswered-unbind-ok", "writefail"} {
+			emit("connka " + v)
+		}
 		for i := 0; i < scale(tier, 300, 1500); i++ {
 			emit(genConnScenario(r, connProfile{submit: r.Range(0, 3), send: r.Range(0, 1), close: r.Range(0, 2), unsolPct: 8, badPct: 4, drainPct: 6, teardownPct: 12, events: r.Range(4, 18)}))
 		}
@@ -1379,4 +1383,155 @@ func safeReadPDU(b []byte) (p interface{}, err error) {
 		}
 	}()
 	return pdu.ReadPDU(bytes.NewReader(b))
+}
+
+// ---------------------------------------------------------------- C15: the keep-alive loop (implementation only)
+
+// opConnKA: `connka <variant>` — EnquireLink(tick, timeout) on a real Conn over the scripted transport.
+//
+//	answered-cancel   keep-alives are answered, then the parent context is cancelled
+//	answered-eof      keep-alives are answered, then the peer hangs up
+//	unanswered        the first keep-alive goes unanswered: EnquireLink must Close (unbind, unanswered too) and return
+//	unanswered-unbind-ok   as above but the peer answers the unbind
+//	writefail         writes fail from the start
+//
+// Oracle: the loop returns, Done() is closed, Watch returns where the transport ended, no panic.
+func opConnKA(args []string) string {
+	if len(args) != 1 {
+		return "bad-op"
+	}
+	variant := args[0]
+	tr := newScriptConn(0)
+	parentCtx, cancelAll := context.WithCancel(context.Background())
+	defer cancelAll()
+	conn := smpp.NewConn(parentCtx, tr)
+	var seq int32
+	var smu sync.Mutex
+	conn.NextSequence = func() int32 { smu.Lock(); defer smu.Unlock(); seq++; return seq }
+	var panics []string
+	var pmu sync.Mutex
+	guard := func(name string) {
+		if e := recover(); e != nil {
+			pmu.Lock()
+			panics = append(panics, name+":"+fmt.Sprint(e))
+			pmu.Unlock()
+		}
+	}
+	watchRet := make(chan struct{})
+	go func() { defer close(watchRet); defer guard("watch"); conn.Watch() }()
+	go func() {
+		defer guard("consumer")
+		for range conn.PDU() {
+		}
+	}()
+	if variant == "writefail" {
+		tr.mu.Lock()
+		tr.broken = true
+		tr.mu.Unlock()
+	}
+	kaRet := make(chan struct{})
+	go func() {
+		defer close(kaRet)
+		defer guard("keepalive")
+		conn.EnquireLink(5*time.Millisecond, 60*time.Millisecond)
+	}()
+	// the peer: releases every held Write at once and answers according to the variant
+	stopPeer := make(chan struct{})
+	answered := 0
+	go func() {
+		handled := 0
+		for {
+			select {
+			case <-stopPeer:
+				return
+			case <-time.After(500 * time.Microsecond):
+			}
+			tr.mu.Lock()
+			var todo [][]byte
+			for handled < len(tr.writes) {
+				todo = append(todo, tr.writes[handled].data)
+				handled++
+			}
+			for s, g := range tr.gates {
+				close(g)
+				delete(tr.gates, s)
+			}
+			tr.mu.Unlock()
+			for _, w := range todo {
+				if len(w) < 16 {
+					continue
+				}
+				id := binary.BigEndian.Uint32(w[4:8])
+				s := int32(binary.BigEndian.Uint32(w[12:16]))
+				switch {
+				case id == 0x00000015 && strings.HasPrefix(variant, "answered"):
+					tr.feed(frameOf(&pdu.EnquireLinkResp{Header: pdu.Header{Sequence: s}}))
+					answered++
+				case id == 0x00000006 && variant == "unanswered-unbind-ok":
+					tr.feed(frameOf(&pdu.UnbindResp{Header: pdu.Header{Sequence: s}}))
+				}
+			}
+		}
+	}()
+	switch variant {
+	case "answered-cancel":
+		time.Sleep(40 * time.Millisecond)
+		cancelAll()
+	case "answered-eof":
+		time.Sleep(40 * time.Millisecond)
+		tr.mu.Lock()
+		tr.readEnd = io.EOF
+		tr.cond.Broadcast()
+		tr.mu.Unlock()
+	}
+	marker := ""
+	fail := func(s string) {
+		if marker == "" {
+			marker = " !! " + s
+		}
+	}
+	returned := false
+	select {
+	case <-kaRet:
+		returned = true
+	case <-time.After(2500 * time.Millisecond):
+		fail("C15:keepalive-loop-did-not-return variant=" + variant)
+	}
+	done := false
+	select {
+	case <-conn.Done():
+		done = true
+	case <-time.After(200 * time.Millisecond):
+		fail("C15:done-not-closed-after-keepalive-ended variant=" + variant)
+	}
+	close(stopPeer)
+	watch := "running"
+	wait := 50 * time.Millisecond
+	if variant == "answered-eof" || variant == "unanswered-unbind-ok" {
+		wait = time.Second
+	}
+	select {
+	case <-watchRet:
+		watch = "returned"
+	case <-time.After(wait):
+		if variant == "answered-eof" || variant == "unanswered-unbind-ok" {
+			fail("C15:watch-did-not-return variant=" + variant)
+		}
+	}
+	pmu.Lock()
+	if len(panics) > 0 {
+		fail("C15:panic " + strings.ReplaceAll(panics[0], " ", "_"))
+	}
+	pmu.Unlock()
+	// let everything end
+	tr.mu.Lock()
+	for s, g := range tr.gates {
+		close(g)
+		delete(tr.gates, s)
+	}
+	tr.closed = true
+	tr.cond.Broadcast()
+	tr.mu.Unlock()
+	cancelAll()
+	return fmt.Sprintf("ka variant=%s returned=%v done=%v watch=%s answered>0=%v", variant, returned, done, watch, answered > 0) + marker
 }
